@@ -334,7 +334,9 @@ fn main() {
         "generated single-sheet workbooks (0..30 simple cells in a window of <=40x12 placed anywhere the format \
          allows, with empty rows inside; one sheet in three also stores blank valueless cells (BLANK / <c s=/> / \
          BrtCellBlank / empty table-cell), some on rows of their own, which are option candidates; xlsx <dimension> \
-         accurate / absent / unrelated / a large stale one that under- or overstates the last row) in xls/xlsx/xlsb/ods, each read under 2..7 header-row options drawn from \
+         accurate / absent / unrelated / a large stale one that under- or overstates the last row; ods windows up to \
+         row 3 000 000 (the format has no row limit); one case in 25 is a TALL sheet of 600..2500 filled rows read under \
+         header rows deep inside it) in xls/xlsx/xlsb/ods, each read under 2..7 header-row options drawn from \
          {default, 0, first-1, first, a gap row, last, last+1, 2^20, u32::MAX-1, u32::MAX, random near the data}, options \
          interleaved and changed back; each read checked against the property oracle (emptiness, start row = n, \
          every value at row >= n equals the sheet's, nothing from rows < n) and the Lean windowing model; \
@@ -351,6 +353,32 @@ fn main() {
         let mut rng = Rng::new(args.seed);
         for i in 0..n {
             let fmt = wb::ALL_FORMATS[(i % 4) as usize];
+            if i % 25 == 24 {
+                // a TALL sheet: hundreds to thousands of filled rows (a sheet part of well over 8 KiB, many records
+                // above the header row), read under header rows deep inside it
+                let rows = rng.range(600, 2500) as u32;
+                let cols = rng.range(1, 3) as u32;
+                let r0 = rng.below(4) as u32;
+                let mut sheet = LSheet { name: "S".into(), ..Default::default() };
+                for r in 0..rows {
+                    for c in 0..cols {
+                        let v = match (r + c) % 4 {
+                            0 => V::Num(0.5 + (r % 7) as f64),
+                            1 => V::Str(format!("t{}", r % 5)),
+                            2 => V::Bool(r % 2 == 0),
+                            _ => V::Num(-1.5),
+                        };
+                        sheet.cells.insert((r0 + r, c), v);
+                    }
+                }
+                let mut options = vec![];
+                for _ in 0..rng.range(2, 4) {
+                    let d = *rng.pick(&[1u32, 3, 100, 400, rows / 2, rows - 2, rows - 1, rows, rows + 1]);
+                    options.push(if rng.chance(1, 6) { HeaderRow::FirstNonEmptyRow } else { HeaderRow::Row(r0 + d) });
+                }
+                cases.push(Case { fmt, sheet, options, seed: rng.next() });
+                continue;
+            }
             let sheet = wb::gen_sheet(&mut rng, fmt, "S", 30);
             let options = gen_options(&mut rng, &sheet);
             cases.push(Case { fmt, sheet, options, seed: rng.next() });
